@@ -12,6 +12,10 @@ HS == Write(KeyMagic, Sym("s_priv"), Sym("s_pub"), Sym("e_priv"), Sym("e_pub"), 
 \* the same writer with a symbolic prologue (noise_encrypt is exported with a prologue argument)
 HSP == Write(Sym("prologue"), Sym("s_priv"), Sym("s_pub"), Sym("e_priv"), Sym("e_pub"), Sym("rs"), Sym("payload"))
 
+\* attacker-built handshakes (C05): "ss" left out, or the all-zero secret mixed instead
+HSK == WriteForged(KeyMagic, Sym("s_priv"), Sym("s_pub"), Sym("e_priv"), Sym("e_pub"), Sym("rs"), Sym("payload"), "skip_ss")
+HSZ == WriteForged(KeyMagic, Sym("s_priv"), Sym("s_pub"), Sym("e_priv"), Sym("e_pub"), Sym("rs"), Sym("payload"), "zero_ss")
+
 RS == ReadSchedule(KeyMagic, Sym("r_priv"), Sym("r_pub"), Sym("e_pub"), Sym("enc_s"), Sym("s_pub"), Sym("enc_p"))
 
 Templates ==
@@ -37,6 +41,8 @@ Templates ==
     rd_k1        |-> RS.k1,  rd_n1 |-> RS.n1,  rd_ad1 |-> RS.ad1,
     rd_k2        |-> RS.k2,  rd_n2 |-> RS.n2,  rd_ad2 |-> RS.ad2,  rd_hh |-> RS.hh,
     rd_file_key  |-> KeyFileKey(Sym("payload"), RS.hh),
+    key_header_skip_ss   |-> KeyHeader(HSK),  key_file_key_skip_ss |-> KeyFileKey(Sym("payload"), HSK.hh),
+    key_header_zero_ss   |-> KeyHeader(HSZ),  key_file_key_zero_ss |-> KeyFileKey(Sym("payload"), HSZ.hh),
     noise_msg_p  |-> HSP.msg,
     noise_hh_p   |-> HSP.hh,
     hkdf_noise_1 |-> HkdfOut1(Sym("ck"), Sym("ikm")),
